@@ -368,6 +368,13 @@ func checkC03(c *Ctx) string {
 	// ---- 5. counters
 	checkC03Counters(c, a)
 
+	checkWriteLimitAborts(c, "C03.9 K4 reaching the write limit aborts the transaction")
+	checkCompleteOutcome(c, "C03.10 K4c the completed status is stored only after a successful commit")
+	checkAbortAlwaysQueued(c, "C03.11 K5 an abort request always reaches the checker")
+	if ta := getTranAnchors(c, "C03.12 anchors"); ta != nil {
+		checkMutationAbortWrapper(c, ta, "C03.12 K4 index mutations run under recover→Abort→re-panic")
+	}
+	checkTranInfoHonoursOwnChanges(c, "C03.8 K9 a transaction's Info accessors honour its own changes")
 	return "Static wiring of commit atomicity and truthfulness: in the checker's ckCommit case 'true' is sent only on the edge where Check.commit returned non-nil and after UpdateTran.commit " +
 		"(one UpdateState whose callback layers the transaction onto the state it receives); 'false' only on the nil edge; DbState.Meta is assigned only inside UpdateState callbacks; the verdict is " +
 		"never dropped up to UpdateTran.Complete, SuTran.Complete (panics on failure) and the server's Commit handler; abort stores the failure reason before removing the transaction; every " +
